@@ -435,9 +435,9 @@ func (m *pairModel) removedOrigin(v ssa.Value, depth int) bool {
 		}
 		okAll, n := true, 0
 		eng.EachInstr(g, func(in ssa.Instruction) {
-			if ret, ok := in.(*ssa.Return); ok && len(ret.Results) == 1 {
+			if ret, ok := in.(*ssa.Return); ok && len(eng.ReturnResults(ret)) == 1 {
 				n++
-				if !m.removedOrigin(ret.Results[0], depth+1) {
+				if !m.removedOrigin(eng.ReturnResults(ret)[0], depth+1) {
 					okAll = false
 				}
 			}
